@@ -73,6 +73,10 @@ pub struct World {
     /// certificate hashes in order of first appearance in the store
     pub cert_order: RefCell<Vec<String>>,
     pub restarts: u32,
+    /// the node under test panicked during an operation: the process is dead, whoever holds the
+    /// world mutably restarts it (what a supervisor does) before the next event
+    pub needs_restart: Cell<bool>,
+    pub panics: Cell<u32>,
     /// configuration variant the running node was started with (see `protocol_parameters_variant`)
     pub cfg_variant: u8,
     /// reference model of the write-once epoch settings: settings epoch → protocol parameters.
@@ -85,6 +89,21 @@ pub struct World {
     pub acknowledged: RefCell<BTreeSet<(usize, String)>>,
     /// controller of the verif_hooks points (installed on this thread for the life of the world)
     pub ctl: crate::ctl::Ctl,
+}
+
+/// polls a future under `catch_unwind`: a panic of the node under test ends that operation only
+pub struct CatchUnwind<F>(pub std::pin::Pin<Box<F>>);
+
+impl<F: std::future::Future> std::future::Future for CatchUnwind<F> {
+    type Output = Result<F::Output, String>;
+    fn poll(mut self: std::pin::Pin<&mut Self>, cx: &mut std::task::Context<'_>) -> std::task::Poll<Self::Output> {
+        let inner = &mut self.0;
+        match mc_core::catch(|| inner.as_mut().poll(cx)) {
+            Ok(std::task::Poll::Ready(v)) => std::task::Poll::Ready(Ok(v)),
+            Ok(std::task::Poll::Pending) => std::task::Poll::Pending,
+            Err(e) => std::task::Poll::Ready(Err(e)),
+        }
+    }
 }
 
 pub fn logger() -> slog::Logger {
@@ -224,6 +243,8 @@ impl World {
             registered_in_epoch: RefCell::new(BTreeMap::new()),
             cert_order: RefCell::new(vec![]),
             restarts: 0,
+            needs_restart: Cell::new(false),
+            panics: Cell::new(0),
             cfg_variant: 0,
             ref_settings: RefCell::new(BTreeMap::from([(0, protocol_parameters()), (1, protocol_parameters()), (2, protocol_parameters())])),
             acknowledged: RefCell::new(BTreeSet::new()),
@@ -322,11 +343,37 @@ impl World {
             let c = self.outside.chain_observer.get_current_epoch().await.ok().flatten().map(|e| *e).unwrap_or(0);
             self.ref_settings.borrow_mut().entry(c + 1).or_insert_with(|| protocol_parameters_variant(self.cfg_variant));
         }
-        let r = rt.cycle().await.map_err(|e| format!("{e:?}"));
+        let out = CatchUnwind(Box::pin(rt.cycle())).await;
+        let r = match out {
+            Ok(r) => r.map_err(|e| format!("{e:?}")),
+            Err(p) => {
+                // the node panicked: the process is gone
+                self.node_panicked();
+                drop(rt);
+                self.last_state.set("crashed");
+                return Err(format!("PANIC {} at {}", p.chars().take(80).collect::<String>(), mc_core::last_panic_location()));
+            }
+        };
         self.last_state.set(rt.state_label());
         *self.runtime.borrow_mut() = Some(rt);
         tokio::task::yield_now().await;
         r
+    }
+
+    pub fn node_panicked(&self) {
+        self.panics.set(self.panics.get() + 1);
+        self.needs_restart.set(true);
+    }
+
+    /// restart the node if one of its operations panicked (to be called between events)
+    pub async fn restart_if_crashed(&mut self) -> bool {
+        if self.needs_restart.get() {
+            self.needs_restart.set(false);
+            self.restart().await;
+            true
+        } else {
+            false
+        }
     }
 
     pub fn state(&self) -> &'static str {
@@ -420,11 +467,14 @@ impl World {
     pub async fn register(&self, i: usize) -> Result<(), String> {
         let tp = self.time_point().await;
         let signer = self.fixture.signers_with_stake()[i].clone();
-        let res = self
-            .deps
-            .signer_registerer
-            .register_signer(tp.epoch.offset_to_recording_epoch(), &signer.into())
-            .await;
+        let signer: mithril_common::entities::Signer = signer.into();
+        let res = match CatchUnwind(Box::pin(self.deps.signer_registerer.register_signer(tp.epoch.offset_to_recording_epoch(), &signer))).await {
+            Ok(r) => r,
+            Err(p) => {
+                self.node_panicked();
+                return Err(format!("PANIC {p}"));
+            }
+        };
         match res {
             Ok(_) => {
                 self.registered_in_epoch.borrow_mut().entry(*tp.epoch).or_default().insert(i);
@@ -434,20 +484,73 @@ impl World {
         }
     }
 
-    /// The signature signer `i` would produce for `message` in `epoch` (its key registered two
-    /// epochs earlier, against the registration set the reference rule derives). None when it is
-    /// not eligible or wins no lottery.
-    pub fn sign(&self, i: usize, epoch: u64, message: &ProtocolMessage) -> Option<SingleSignature> {
-        let set = self.reference_signers(epoch);
-        if !set.contains(&i) {
+    /// What the aggregator announces to signer nodes (GET /epoch-settings): its epoch, the signers
+    /// of that epoch and those of the next one. None while the route cannot answer.
+    pub async fn served_signer_sets(&self) -> Option<(u64, Vec<mithril_common::entities::Signer>, Vec<mithril_common::entities::Signer>)> {
+        use mithril_common::messages::{EpochSettingsMessage, SignerMessagePart};
+        let resp = warp::test::request().method("GET").path("/aggregator/epoch-settings").reply(&self.routes).await;
+        if !resp.status().is_success() {
             return None;
         }
-        let builder = self.reference_signer_builder(epoch)?;
+        let m: EpochSettingsMessage = serde_json::from_slice(resp.body()).ok()?;
+        let cur = SignerMessagePart::try_into_signers(m.current_signers).ok()?;
+        let next = SignerMessagePart::try_into_signers(m.next_signers).ok()?;
+        Some((*m.epoch, cur, next))
+    }
+
+    fn index_of_party(&self, party_id: &str) -> Option<usize> {
+        self.fixture.signers_fixture().iter().position(|s| s.signer_with_stake.party_id == party_id)
+    }
+
+    /// The signature the honest signer node `i` produces for `message` in `epoch`. As a real signer
+    /// node does, it takes the list of signers of the epoch from what the aggregator ANNOUNCES
+    /// (epoch settings: the current list when the aggregator is in `epoch`, the next list when it
+    /// is one epoch behind), joins it with the stakes its own chain view recorded for that epoch,
+    /// and signs with its own key if it is announced. Only when the aggregator announces nothing
+    /// for `epoch` does it fall back to the reference rule (the registrations the harness saw
+    /// accepted two epochs earlier). On a correct aggregator both coincide; on an aggregator that
+    /// announces a wrong set the honest signers follow it, the certificate is sealed, and the
+    /// invariants - which always use the reference rule - show it. None when the signer is not
+    /// eligible or wins no lottery.
+    pub async fn sign(&self, i: usize, epoch: u64, message: &ProtocolMessage) -> Option<SingleSignature> {
         let sf = &self.fixture.signers_fixture()[i];
-        let signer = builder
-            .restore_signer_from_initializer(sf.signer_with_stake.party_id.clone(), self.initializer_for(i, epoch))
-            .ok()?;
+        let me = sf.signer_with_stake.party_id.clone();
+        let announced = match self.served_signer_sets().await {
+            Some((e, cur, _)) if e == epoch => Some(cur),
+            Some((e, _, next)) if e + 1 == epoch => Some(next),
+            _ => None,
+        };
+        let builder = match announced {
+            Some(list) => {
+                if !list.iter().any(|s| s.party_id == me) {
+                    return None;
+                }
+                let reg_epoch = World::registration_epoch_of(epoch)?;
+                let mut sws = vec![];
+                for s in list {
+                    // a party the signer's own stake distribution does not know: it cannot build the set
+                    let idx = self.index_of_party(&s.party_id)?;
+                    sws.push(SignerWithStake::from_signer(s, self.stake_in(idx, reg_epoch)));
+                }
+                SignerBuilder::new(&sws, &protocol_parameters()).ok()?
+            }
+            None => {
+                if !self.reference_signers(epoch).contains(&i) {
+                    return None;
+                }
+                self.reference_signer_builder(epoch)?
+            }
+        };
+        let signer = builder.restore_signer_from_initializer(me, self.initializer_for(i, epoch)).ok()?;
         signer.sign(message).ok().flatten()
+    }
+
+    /// signer `i` sends a registration that names the round of the PREVIOUS epoch (already closed):
+    /// it must be refused; the harness records nothing (by the reference rule it registers nobody)
+    pub async fn register_late(&self, i: usize) -> Result<(), String> {
+        let tp = self.time_point().await;
+        let signer = self.fixture.signers_with_stake()[i].clone();
+        self.deps.signer_registerer.register_signer(tp.epoch, &signer.into()).await.map(|_| ()).map_err(|e| format!("{e:?}"))
     }
 
     pub async fn current_entity(&self, d: SignedEntityTypeDiscriminants) -> SignedEntityType {
@@ -479,13 +582,14 @@ impl World {
             won_indexes: sig.won_indexes.clone(),
             signed_message: signed_message.to_string(),
         };
-        let resp = warp::test::request()
-            .method("POST")
-            .path("/aggregator/register-signatures")
-            .json(&msg)
-            .reply(&self.routes)
-            .await;
-        resp.status().as_u16()
+        let fut = warp::test::request().method("POST").path("/aggregator/register-signatures").json(&msg).reply(&self.routes);
+        match CatchUnwind(Box::pin(fut)).await {
+            Ok(resp) => resp.status().as_u16(),
+            Err(_) => {
+                self.node_panicked();
+                599
+            }
+        }
     }
 
     /// the epoch the aggregator serves in its epoch settings (what a signer node reads before it
